@@ -4,7 +4,7 @@ from __future__ import annotations
 import ast
 from typing import Optional, Set
 
-from ..core import AnalysisError, call_name, dotted, walk_local
+from ..core import AnalysisError, call_name, dotted, stmt_key, walk_local
 from .. import fields as F
 from .. import coh
 
@@ -180,3 +180,72 @@ def sweep_prefix_rule(ctx, rid: str):
         ctx.ob(rid, 'cirq.sim.simulator_base.SimulatorBase.simulate_sweep_iter:prefix-predicate', ok,
                '' if ok else 'prefix predicate does not conjoin `not is_parameterized(op)`: a resolver-dependent '
                'operation would be simulated once and reused for every sweep point', ci.mod.rel, c.lineno)
+
+
+def value_method_names(repo):
+    """Method names all of whose definitions (non-test) have value semantics: no store on self, and every return hands back a freshly built
+    object of the method's own class family (constructor / replace / copy), `self` unchanged, or NotImplemented."""
+    from .. import fields as F
+    defs = {}
+    for ci in repo.classes.values():
+        if '.testing.' in ci.qual:
+            continue
+        for mn, fn in ci.methods.items():
+            defs.setdefault(mn, []).append((ci, fn))
+
+    def fresh(ci, fn):
+        if any(isinstance(n, (ast.Yield, ast.YieldFrom)) for n in ast.walk(fn)):
+            return False
+        rets = [r for r in ast.walk(fn) if isinstance(r, ast.Return)]
+        if not rets:
+            return False
+        fam = {c.name for c in repo.mro(ci)} | {c.name for c in repo.subclasses(ci)} | {'cls'}
+        builders = fam | {'replace', '_from_moments', 'copy', 'deepcopy'}
+        local_fresh = {n.targets[0].id for n in ast.walk(fn) if isinstance(n, ast.Assign) and isinstance(n.targets[0], ast.Name)
+                       and isinstance(n.value, ast.Call) and call_name(n.value) in builders}
+        for r in rets:
+            v = r.value
+            if v is None:
+                return False
+            ok = (isinstance(v, ast.Call) and (call_name(v) in builders - {'copy', 'deepcopy'} or (isinstance(v.func, ast.Call) and call_name(v.func) == 'type'))) \
+                or (isinstance(v, ast.Name) and v.id in local_fresh | {'NotImplemented', 'self'})
+            if not ok:
+                return False
+        if all(isinstance(r.value, ast.Name) and r.value.id in ('self', 'NotImplemented') for r in rets):
+            return False
+        return not F.self_writes(fn)
+    out = {}
+    for mn, lst in defs.items():
+        if mn.startswith('__'):
+            continue
+        if all(fresh(ci, fn) for ci, fn in lst):
+            out[mn] = lst
+    return out
+
+
+def discarded_value_rule(ctx, rid: str, floor: int = 40):
+    """An expression statement `x.m(...)` whose method m only ever *returns* its result (value semantics, see value_method_names) throws the result away:
+    the author assumed an in-place update (`tableau.inverse()` instead of `tableau = tableau.inverse()`)."""
+    repo = ctx.repo
+    ctx.rule(rid, 'no discarded value: for every method name all of whose definitions are non-mutating and return a freshly built object of their own class '
+             '(inverse, then, with_*, replace, conjugated_by, ...), no statement calls it on an object and ignores the result', floor=floor, style='EFF')
+    names = value_method_names(repo)
+    hits = {}
+    for m in repo.modules.values():
+        if '/testing/' in m.rel:
+            continue
+        mods = set(m.imports) if hasattr(m, 'imports') else set()
+        for st in ast.walk(m.tree):
+            if isinstance(st, ast.Expr) and isinstance(st.value, ast.Call) and isinstance(st.value.func, ast.Attribute) and st.value.func.attr in names:
+                recv = st.value.func.value
+                if isinstance(recv, ast.Name) and (recv.id in mods or recv.id in ('os', 'protocols', 'cirq', 'np', 'dataclasses', 'attrs')):
+                    continue          # a module-level function of the same name (os.replace, protocols.inverse)
+                hits.setdefault(st.value.func.attr, []).append((m, st))
+    for mn in sorted(names):
+        h = hits.get(mn, [])
+        if not h:
+            ctx.ob(rid, f'value-method:{mn}', True, '', names[mn][0][0].mod.rel, names[mn][0][1].lineno)
+        for m, st in h:
+            ctx.ob(rid, f'value-method:{mn}@{m.name}:{stmt_key(st) if callable(stmt_key) else ast.unparse(st)[:60]}', False,
+                   f'`{ast.unparse(st)[:70]}` discards the result of {mn}(), which never changes its receiver ({names[mn][0][0].name}.{mn} returns a new object): '
+                   'the statement has no effect', m.rel, st.lineno, construct=f'value-method:{mn}')
